@@ -282,7 +282,8 @@ class TemplateWorld:
         sut = ops.SUT.__new__(ops.SUT)
         from pulser import Sequence
 
-        sut.world = self.spec
+        sut.world = sut.world0 = self.spec
+        sut.log = []
         sut.device = self.device
         sut.register = self.direct_register(qubits)
         sut.seq = Sequence(sut.register, self.device)
